@@ -25,17 +25,21 @@ TrScenario == Rec[1].scenario
 TrN        == Rec[1].N
 TrKinds    == Rec[1].kinds
 TrScript   == Rec[1].script
+TrReaders  == Rec[1].readers
 
 VARIABLES l, boot, run
 tvars == <<vars, l, boot, run>>
 
-T0 == R0 \/ R1 \/ R2 \/ R3 \/ W0 \/ W1 \/ W2 \/ W2b
-T1 == S0 \/ S1 \/ S2 \/ S3 \/ NK0 \/ NK2 \/ C0 \/ C1 \/ C2 \/ A0 \/ A1 \/ A2 \/ A3 \/ E0 \/ E1 \/ E1b \/ E2
+T0 == R0 \/ R1 \/ R2 \/ R3 \/ W0 \/ W1 \/ W2 \/ W2b \/ WQ0
+T1 == EQ0 \/ EQ1 \/ EQ1b \/ EQ1c \/ S0 \/ S1 \/ S2 \/ S3 \/ NK0 \/ NK2 \/ C0 \/ C1 \/ C2 \/ A0 \/ A1 \/ A2 \/ A3 \/ E0 \/ E1 \/ E1b \/ E2
 
 \* yield points of the driver's own loops that the model does not tell apart
 Norm(a) == CASE a = "sl0!" -> "sl0"          \* granted a step while the mutex was held: still in front of it
              [] a = "aw_done" -> "aw_poll"   \* all writes done: A0 is disabled at aw_poll
              [] OTHER -> a
+
+\* the yield point inside Waker::clone carries one label wherever the code clones the waker
+AtOk(p, a) == p = a \/ (a = "wc" /\ p \in {"wc0", "wc1"})
 
 ValuesAmong(d) == Cardinality({i \in 1..d : Kinds[i] = "V"})
 \* the counters the driver reads off the real objects, against the model's next state
@@ -44,15 +48,17 @@ Bind(e) ==
   /\ (Reader /\ ~NoKey) => del' = e.del
   /\ NoKey => ValuesAmong(del') = e.del            \* the application counts values; disposes are skipped, never shown
   /\ Scenario = "awrite" => sent' = e.done
-  /\ Scenario = "await" => (IF finished' THEN 1 ELSE 0) = e.done
+  /\ Scenario \in {"await", "awaitq"} => (IF finished' THEN 1 ELSE 0) = e.done
+  /\ Scenario = "awaitq" => Owed' = e.owed
 
 ReInit ==
   /\ pc0' = (IF Reader THEN "r_inject" ELSE "w_pop")
   /\ pc1' = (CASE Scenario \in {"stream", "nkstream", "nkbare"} -> "a_poll" [] Scenario \in {"mio6", "mio8"} -> "c_wait"
-               [] Scenario = "awrite" -> "aw_poll" [] Scenario = "await" -> "e_poll")
+               [] Scenario = "awrite" -> "aw_poll" [] Scenario \in {"await", "awaitq"} -> "e_poll")
   /\ ins' = 0 /\ del' = 0 /\ waker' = FALSE /\ waker2' = FALSE /\ wakeFlag' = FALSE /\ r8' = FALSE /\ n6' = 0
-  /\ q' = 0 /\ sent' = 0 /\ cmdSent' = FALSE /\ signal' = FALSE /\ finished' = FALSE /\ lk' = FALSE /\ held' = 0 /\ idx' = 0
-  /\ trail' = <<>>
+  /\ q' = (IF Scenario = "awaitq" THEN N ELSE 0) /\ cmdIn' = FALSE /\ ackw' = FALSE /\ acked' = FALSE
+  /\ sent' = 0 /\ cmdSent' = FALSE /\ signal' = FALSE /\ finished' = FALSE /\ lk' = FALSE /\ held' = 0 /\ idx' = 0
+  /\ trail' = <<>> /\ seen' = <<FALSE, FALSE, FALSE, FALSE, FALSE>>
 
 TraceInit == Init /\ l = 2 /\ boot = 0 /\ run = -1
 
@@ -60,15 +66,15 @@ StepOf(e) ==
   LET at == Norm(e.at) IN
   IF boot < 2
     \* the driver first brings both threads to the yield point at which the model's program counters start
-    THEN /\ at = (IF e.t = 0 THEN pc0 ELSE pc1)
+    THEN /\ AtOk(IF e.t = 0 THEN pc0 ELSE pc1, at)
          /\ boot' = boot + 1
          /\ UNCHANGED vars
     ELSE /\ UNCHANGED boot
          /\ IF e.t = 0
-              THEN IF ENABLED T0 THEN T0 /\ pc0' = at /\ Bind(e)
-                                 ELSE at = pc0 /\ UNCHANGED vars /\ Bind(e)
-              ELSE IF ENABLED T1 THEN T1 /\ pc1' = at /\ Bind(e)
-                                 ELSE at = pc1 /\ UNCHANGED vars /\ Bind(e)
+              THEN IF ENABLED T0 THEN T0 /\ AtOk(pc0', at) /\ Bind(e)
+                                 ELSE AtOk(pc0, at) /\ UNCHANGED vars /\ Bind(e)
+              ELSE IF ENABLED T1 THEN T1 /\ AtOk(pc1', at) /\ Bind(e)
+                                 ELSE AtOk(pc1, at) /\ UNCHANGED vars /\ Bind(e)
 
 Parked == pc1 \in {"a_parked", "aw_parked", "e_parked"}
 
@@ -81,7 +87,7 @@ Step ==
        \* not run because parked and not woken: the model must agree on both counts
        [] e.ev = "Skip"  -> Parked /\ ~wakeFlag /\ UNCHANGED <<vars, boot, run>>
        \* where the run ended: the real application's yield point is the model's, and so is "woken"
-       [] e.ev = "End"   -> /\ ~e.hung => (Norm(e.app_at) = pc1 /\ (Parked => e.woken = wakeFlag))
+       [] e.ev = "End"   -> /\ ~e.hung => (AtOk(pc1, Norm(e.app_at)) /\ (Parked => e.woken = wakeFlag))
                             /\ UNCHANGED <<vars, boot, run>>
        [] e.ev = "Hung"  -> UNCHANGED <<vars, boot, run>>
 
